@@ -334,7 +334,11 @@ int vf_close(int fd)
 /* ---- seed hook ---- */
 int vf_seed_hook(void)
 {
+	/* the seed is to be drawn once per process: the first call returns the configured value (replayable probe sequences), any FURTHER call a different one,
+	 * so that a second draw changes how keys hash and shows up as lost members in whatever object is alive at that moment */
+	static int calls;
 	const char *e = getenv("VF_HASH_SEED");
-	if (e && *e) return (int)strtol(e, NULL, 0);
-	return 0x5eed1234;
+	int base = (e && *e) ? (int)strtol(e, NULL, 0) : 0x5eed1234;
+	int v = base + 7919 * calls++;
+	return v == -1 ? 12345 : v;
 }
